@@ -15,6 +15,7 @@ exception / other error / TApplicationException.
 """
 import collections
 import struct
+import time
 
 import lab
 import lab_idl as L
@@ -497,10 +498,26 @@ def _run_program(ctx, prog, lb, plan, stats, judge_cases, judge_meta):
         base = {"program": p["id"], "client": svc_key(cfn, csvc), "server": svc_key(sfn, ssvc),
                 "transport": transport, "proto": proto}
         if resp.get("code") != 0 or "calls" not in resp:
-            rep = dict(base)
-            rep.update({"idl": L.render(p), "response": str(resp)[:1500], "request": req})
-            ctx.violation("C03: session failed (%s/%s): %s" % (transport, proto, str(resp)[:200]), rep)
-            continue
+            # the session as a whole hung or died: make its calls one by one (fresh server and connection each) so
+            # that the failing input is named; if no single call fails, the session failure itself is reported
+            before_session = len(ctx.violations)
+            t_end = time.time() + 90
+            redone = []
+            for rq in req["calls"]:
+                if time.time() > t_end:
+                    break
+                one = dict(req)
+                one["calls"] = [rq]
+                r1 = lb.run([one], timeout=60)[0]
+                if r1.get("code") != 0 or not r1.get("calls"):
+                    redone.append({"err": "call alone: %s" % str(r1)[:300]})
+                else:
+                    redone.append(r1["calls"][0])
+            stats["sessions_redone_call_by_call"] += 1
+            failed_session = (resp, before_session)
+            resp = {"code": 0, "calls": redone}
+        else:
+            failed_session = None
         served = {wire_name(m): (dfn, dsvc, m) for dfn, dsvc, m in L.service_methods(p, sfn, ssvc)}
         for c, rq, o in zip(calls, req["calls"], resp["calls"]):
             stats["calls"] += 1
@@ -562,7 +579,7 @@ def _run_program(ctx, prog, lb, plan, stats, judge_cases, judge_meta):
             reqf = bytes.fromhex(o.get("request") or "")
             hdrs = parse_headers(reqf)
             if c.unwritable and not reqf:
-                hdrs = [[b"_cid", b"c03"], [b"_opid", str(o.get("opid")).encode()], [b"_timeout", b"3000"]]
+                hdrs = [[b"_cid", b"c03"], [b"_opid", str(o.get("opid")).encode()], [b"_timeout", b"2000"]]
             if hdrs is None:
                 ctx.violation("C03: request frame not recorded / malformed", rep)
                 continue
@@ -614,6 +631,11 @@ def _run_program(ctx, prog, lb, plan, stats, judge_cases, judge_meta):
             m2 = dict(rep)
             m2.pop("idl", None)
             per_case[key][1].append(m2)
+        if failed_session is not None and len(ctx.violations) == failed_session[1]:
+            rep = dict(base)
+            rep.update({"idl": L.render(p), "response": str(failed_session[0])[:1500], "request": req,
+                        "note": "every call of the session succeeds when made alone"})
+            ctx.violation("C03: session failed (%s/%s): %s" % (transport, proto, str(failed_session[0])[:200]), rep)
     idl = L.render(p)
     for key, (toks, metas) in per_case.items():
         # cases are cut so that one coqc shard stays small
